@@ -51,7 +51,7 @@ def _eliminate_early_returns(stmts):
     return out
 
 
-def _simple_body(fn):
+def _simple_body(fn, want_expr=False):
     """('none'|'value', body_without_return, return_expr) or None."""
     body = list(fn.body)
     if body and isinstance(body[0], ast.Expr) and isinstance(body[0].value, ast.Constant) and isinstance(body[0].value.value, str):
@@ -74,22 +74,25 @@ def _simple_body(fn):
     if not rets:
         return ("none", body, None)
     last = body[-1] if body else None
-    if len(body) > 1:
+    bv = None
+    if len(body) >= 1 and not (len(body) == 1 and isinstance(body[0], ast.Return)):
         stored0 = {n.id for st in body for n in ast.walk(st) if isinstance(n, ast.Name) and isinstance(n.ctx, ast.Store)}
         if not (stored0 & {a.arg for a in fn.args.args}):
-            v = _block_value(body, {})
-            if v is not None:
-                return ("value", [], v)
+            bv = _block_value(body, {})
+            # a decision tree over boolean leaves reads best as one and/or/not expression; a value-selecting tree stays statements
+            if bv is not None and (want_expr or not any(isinstance(n, ast.IfExp) for n in ast.walk(bv))):
+                return ("value", [], bv)
     if len(rets) == 1 and rets[0] is last:
         if last.value is None or (isinstance(last.value, ast.Constant) and last.value.value is None):
             return ("none", body[:-1], None)
         return ("value", body[:-1], last.value)
-    stored = {n.id for st in body for n in ast.walk(st) if isinstance(n, ast.Name) and isinstance(n.ctx, ast.Store)}
-    params = {a.arg for a in fn.args.args}
-    if not (stored & params):
-        v = _block_value(body, {})
-        if v is not None:
-            return ("value", [], v)
+    if _always_returns(body):
+        tmp = "ret__%s" % fn.name.strip("_")
+        nb = _returns_to_assign(body, tmp)
+        if nb is not None:
+            return ("value", nb, ast.Name(id=tmp, ctx=ast.Load()))
+    if bv is not None:
+        return ("value", [], bv)
     return None
 
 
@@ -225,6 +228,44 @@ class _SubstEnv(ast.NodeTransformer):
         return n
 
 
+def _returns_to_assign(stmts, target):
+    """Rewrite a block in which every `return e` is in tail position (after moving the statements that follow an always-returning
+    `if` into its else-arm) so that it assigns `target = e` instead.  Returns the new block or None if a return is not in tail
+    position (inside a loop / try / with)."""
+    stmts = list(stmts)
+    out = []
+    for i, s in enumerate(stmts):
+        last = i == len(stmts) - 1
+        if isinstance(s, ast.Return):
+            v = s.value if s.value is not None else ast.Constant(value=None)
+            out.append(ast.copy_location(ast.Assign(targets=[ast.Name(id=target, ctx=ast.Store())], value=v), s))
+            return out      # anything after a return is dead
+        if isinstance(s, ast.If) and any(isinstance(n, ast.Return) for n in ast.walk(s)):
+            rest = stmts[i + 1:]
+            new = copy.copy(s)
+            if _always_returns(s.body) and not _always_returns(s.orelse):
+                body = _returns_to_assign(s.body, target)
+                orelse = _returns_to_assign(list(s.orelse) + rest, target)
+            elif _always_returns(s.orelse) and not _always_returns(s.body):
+                body = _returns_to_assign(list(s.body) + rest, target)
+                orelse = _returns_to_assign(s.orelse, target)
+            elif _always_returns(s.body) and _always_returns(s.orelse):
+                body = _returns_to_assign(s.body, target)
+                orelse = _returns_to_assign(s.orelse, target)
+            else:
+                return None
+            if body is None or orelse is None:
+                return None
+            new.body = body or [ast.copy_location(ast.Pass(), s)]
+            new.orelse = orelse
+            out.append(new)
+            return out
+        if any(isinstance(n, ast.Return) for n in ast.walk(s)):
+            return None
+        out.append(s)
+    return out
+
+
 class _Subst(ast.NodeTransformer):
     def __init__(self, mapping, rename):
         self.mapping = mapping      # param name -> expression node (substituted on Load)
@@ -267,8 +308,8 @@ def _bind(fn, call, is_method):
     return out
 
 
-def _expand(fn, call, is_method, self_expr=None):
-    sb = _simple_body(fn)
+def _expand(fn, call, is_method, self_expr=None, want_expr=False):
+    sb = _simple_body(fn, want_expr)
     if sb is None:
         return None
     kind, body, ret = sb
@@ -276,7 +317,7 @@ def _expand(fn, call, is_method, self_expr=None):
     if binding is None:
         return None
     k = next(_counter)
-    stored = {n.id for s in fn.body for n in ast.walk(s) if isinstance(n, ast.Name) and isinstance(n.ctx, (ast.Store, ast.Del))}
+    stored = {n.id for s in list(fn.body) + list(body) for n in ast.walk(s) if isinstance(n, ast.Name) and isinstance(n.ctx, (ast.Store, ast.Del))}
     pre = []
     mapping = {}
     for p, arg in binding.items():
@@ -386,7 +427,7 @@ class Inliner:
                 if not all(isinstance(a, (ast.Name, ast.Constant)) or (isinstance(a, ast.Attribute) and isinstance(a.value, ast.Name))
                            for a in list(c.args) + [k.value for k in c.keywords]):
                     return c
-                ex = _expand(fn, c, is_method, self_expr)
+                ex = _expand(fn, c, is_method, self_expr, want_expr=True)
                 if ex is None:
                     return c
                 kind, body, ret = ex
@@ -468,6 +509,14 @@ def _split_simple_statements(stmts):
             continue
         if isinstance(s, ast.AnnAssign) and s.value is not None and isinstance(s.target, ast.Name):
             s = ast.copy_location(ast.Assign(targets=[s.target], value=s.value), s)
+        if isinstance(s, ast.Assign) and len(s.targets) == 2 and isinstance(s.targets[0], ast.Name) and isinstance(s.targets[1], ast.Attribute) \
+                and isinstance(s.targets[1].value, ast.Name):
+            # `a = self.x = v`  ->  `self.x = v; a = self.x`   (a plain instance attribute reads back what was stored)
+            t_attr = s.targets[1]
+            out.append(ast.copy_location(ast.Assign(targets=[t_attr], value=s.value), s))
+            load = ast.copy_location(ast.Attribute(value=copy.deepcopy(t_attr.value), attr=t_attr.attr, ctx=ast.Load()), s)
+            out.append(ast.copy_location(ast.Assign(targets=[s.targets[0]], value=load), s))
+            continue
         if isinstance(s, ast.Assign) and len(s.targets) == 1 and isinstance(s.targets[0], (ast.Tuple, ast.List)) \
                 and isinstance(s.value, (ast.Tuple, ast.List)) and len(s.targets[0].elts) == len(s.value.elts) \
                 and all(isinstance(t, ast.Name) for t in s.targets[0].elts) and not any(isinstance(v, ast.Starred) for v in s.value.elts):
@@ -487,15 +536,20 @@ def _split_simple_statements(stmts):
     return out
 
 
-def _copyable(v, stable, stored_attrs):
+def _copyable(v, stable, stored_attrs, line=None):
     """Name / attribute chain on a never-rebound name / constant: an expression whose value cannot change between the temporary's
-    definition and its uses inside this function (no statement of the function stores to an attribute of that name)."""
+    definition and its uses inside this function (the function stores to that attribute nowhere, or only in straight-line code
+    before the temporary is defined)."""
     if isinstance(v, ast.Constant):
         return True
     if isinstance(v, ast.Name):
         return v.id in stable
     if isinstance(v, ast.Attribute):
-        return v.attr not in stored_attrs and _copyable(v.value, stable, stored_attrs)
+        ln = getattr(v, "lineno", None) if line is None else line
+        last = stored_attrs.get(v.attr)
+        if last is not None and (last == "loop" or ln is None or last > ln):
+            return False
+        return _copyable(v.value, stable, stored_attrs, ln)
     return False
 
 
@@ -507,13 +561,18 @@ def _propagate_copies(fn):
     if not sa:
         return 0
     stored = set()
-    stored_attrs = set()
+    stored_attrs = {}        # attr -> line of the last store, or "loop" when a store sits inside a loop
     dyn = False
+    loop_spans = [(l.lineno, l.end_lineno) for l in ast.walk(fn) if isinstance(l, (ast.For, ast.While))]
     for n in ast.walk(fn):
         if isinstance(n, ast.Name) and isinstance(n.ctx, (ast.Store, ast.Del)):
             stored.add(n.id)
         elif isinstance(n, ast.Attribute) and isinstance(n.ctx, (ast.Store, ast.Del)):
-            stored_attrs.add(n.attr)
+            ln = getattr(n, "lineno", 0)
+            if any(a_ <= ln <= b_ for a_, b_ in loop_spans) or stored_attrs.get(n.attr) == "loop":
+                stored_attrs[n.attr] = "loop"
+            else:
+                stored_attrs[n.attr] = max(stored_attrs.get(n.attr, 0), ln)
         elif isinstance(n, ast.Call) and isinstance(n.func, ast.Name) and n.func.id in ("setattr", "delattr", "exec", "eval", "locals", "vars"):
             dyn = True
         elif isinstance(n, (ast.Global, ast.Nonlocal)):
@@ -541,10 +600,25 @@ def _propagate_copies(fn):
 
     class T(ast.NodeTransformer):
         def visit_Name(self, n):
-            if isinstance(n.ctx, ast.Load) and n.id in env and not isinstance(env[n.id], ast.Tuple):
+            if isinstance(n.ctx, ast.Load) and n.id in env:
                 count[0] += 1
                 return ast.copy_location(self.visit(copy.deepcopy(env[n.id])), n)
             return n
+
+        def visit_Tuple(self, t):
+            if isinstance(t.ctx, ast.Load):
+                elts = []
+                for a in t.elts:
+                    if isinstance(a, ast.Starred) and isinstance(a.value, ast.Name) and isinstance(env.get(a.value.id), ast.Tuple):
+                        count[0] += 1
+                        elts.extend(copy.deepcopy(x) for x in env[a.value.id].elts)
+                    else:
+                        elts.append(a)
+                t.elts = elts
+            self.generic_visit(t)
+            return t
+
+        visit_List = visit_Tuple
 
         def visit_Call(self, c):
             new_args = []
@@ -575,8 +649,35 @@ def normalize(tree):
     for node in ast.walk(tree):
         if isinstance(node, ast.FunctionDef) and not _is_njit(node):
             node.body = _split_simple_statements(node.body)
+            if all(_is_bare_return(r) for r in ast.walk(node) if isinstance(r, ast.Return)) and \
+                    not any(isinstance(x, (ast.FunctionDef, ast.Lambda)) and x is not node for x in ast.walk(node)):
+                node.body = _eliminate_early_returns(node.body)
             for _ in range(3):
                 if not _propagate_copies(node):
                     break
+    # a private helper whose every use was inlined is dead for the analysis: its body is judged where it now runs
+    dropped = set()
+    for name in sorted(tree._inlined_helpers):
+        defs = []
+        for owner in [tree] + [c for c in tree.body if isinstance(c, ast.ClassDef)]:
+            for d in owner.body:
+                if isinstance(d, ast.FunctionDef) and d.name == name:
+                    defs.append((owner, d))
+        inside = {id(x) for _, d in defs for x in ast.walk(d)}
+        used = False
+        for x in ast.walk(tree):
+            if id(x) in inside:
+                continue
+            if (isinstance(x, ast.Name) and x.id == name) or (isinstance(x, ast.Attribute) and x.attr == name) \
+                    or (isinstance(x, ast.Constant) and x.value == name):
+                used = True
+                break
+        if not used:
+            for owner, d in defs:
+                owner.body.remove(d)
+                if not owner.body:
+                    owner.body.append(ast.Pass())
+            dropped.add(name)
+    tree._dropped_helpers = dropped
     ast.fix_missing_locations(tree)
     return n
